@@ -185,6 +185,12 @@ def cmp_rows(ctx, route, batch_out, singles, tol, what="batch row = single item"
         return
     worst, detail = 0.0, None
     for i, so in enumerate(singles):
+        if not so.ok and isinstance(so.exc, ValueError) and "Quaternion values must be" in str(so.exc) and i < len(B) and np.asarray(B[i]).dtype.kind == "f" \
+                and bool(np.all(np.isnan(np.asarray(B[i], float)))):
+            # the item has no attitude in either entry point: the single-item call refuses the NaN / zero quaternion of a singular pose, the batch marks
+            # the row with NaN (C03's recorded findings for the closed-form estimators; since fa25758 a recording keeps its other rows)
+            ctx.note("row without an attitude in both entry points (single item refused, batch row NaN): equal behaviour, C03's business")
+            continue
         if not ctx.returned(so, clause="no-exception (single item)", route=route):
             return
         s = np.asarray(so.value, dtype=float)
